@@ -134,12 +134,12 @@ def slim(ev):
     return {k: v for k, v in ev.items() if v not in ("", 0, False, [], None) or k in ("ok", "rv")}
 
 
-def cache_programs(ctx, n, length, units=(1,), nkeys=(3, 5, 8)):
-    rng = random.Random(lib.seed() * 7919 + 17)
+def cache_programs(ctx, n, length, units=(1,), nkeys=(3, 5, 8), slowfn=0.0):
+    rng = random.Random(lib.seed() * 7919 + 17 + (1 if slowfn else 0))
     progs = []
     for i in range(n):
         unit = units[i % len(units)]
-        base = gen.cache_program(rng, "Cache", "", "", unit=unit, length=length, nkeys=nkeys[i % len(nkeys)], note="rand#%d unit=%d" % (i, unit))
+        base = gen.cache_program(rng, "Cache", "", "", unit=unit, length=length, nkeys=nkeys[i % len(nkeys)], note="rand#%d unit=%d%s" % (i, unit, " slowfn" if slowfn else ""), slowfn=slowfn)
         progs.append(base)
     return progs
 
@@ -814,12 +814,34 @@ def check_c10(ctx):
                         "TLA+ has no Go types: MapSem judges on abstract key names, i.e. results must depend on the == class only; NaN keys are excluded by the property"]
 
 
+def slow_fn_programs():
+    S = scen.S
+    """GetOrCompute / Compute with a user function during which the clock advances, on an absent, an expired and a live
+    key, read back right at the two candidate expiration instants."""
+    progs = []
+    for unit in (1, 1_000_000_000):
+        for op, fn in (("GetOrCompute", ""), ("Compute", "set"), ("Compute", "setifabsent"), ("Compute", "toggle")):
+            for pre in ([], [S("Set", "k1", "v1", d=2), S("Tick", d=3)], [S("Set", "k1", "v1", d=50)]):
+                for ft, d, wait in ((3, 10, 8), (3, 10, 11), (5, 5, 5), (1, 1, 1), (2, gen.DEFEXP_NS // unit, 4)):
+                    call = {"op": op, "k": "k1", "v": "v2", "d": d, "fn": fn, "ft": ft}
+                    ops = pre + [call, S("GetWithExpiration", "k1"), S("GetWithTTL", "k1"), S("Tick", d=wait), S("Get", "k1"),
+                                 S("Tick", d=1), S("Get", "k1"), S("Tick", d=ft), S("GetWithTTL", "k1"), S("Items"), S("DeleteExpired"), S("Count")]
+                    for cb in ("", "cb1"):
+                        cfg = {"kind": "Cache", "keytype": "", "valtype": "", "ctor": "New", "hasdef": True, "def": 4, "hasintv": True, "interval": 0, "cb": cb}
+                        progs.append({"cache": cfg, "unit": unit, "ops": ops, "note": "slow-fn %s/%s ft=%d d=%d" % (op, fn, ft, d)})
+    return progs
+
+
 def check_c12(ctx):
     exhaustive_cache_model(ctx)
     # caches: every sequential program on Cache and CacheOf[string,any] must give identical observations
     n, length = (60, 120) if not ctx.thorough else (1200, 300)
     base = cache_programs(ctx, n, length, units=(1, 1, 1_000_000_000))
     base += small_scope_programs(2, "Cache", "", "")
+    # slow user functions: the clock advances while GetOrCompute's / Compute's function runs (both twins must arm the
+    # expiry at the same point of the call, and read the default in force at the same point)
+    base += cache_programs(ctx, n // 3, length, units=(1, 1_000_000_000), slowfn=0.5)
+    base += slow_fn_programs()
     a = run_seq(ctx, [instantiate(p, "Cache", "", "") for p in base], "Trace_CacheSeq", "C12", "Cache")
     b = run_seq(ctx, [instantiate(p, "CacheOf", "string", "any") for p in base], "Trace_CacheSeq", "C12", "CacheOf[string,any]")
     compare_runs(ctx, a, b, "cache-twins", "Cache vs CacheOf[string,any]")
